@@ -700,7 +700,7 @@ def table_oracle(ctx, tabs, enums_rt, kinds):
                 ctx.violation("C18:enum-table-missing:%s" % en, "enumerator %s of %s has no entry in the ENUM_TABLE" % (n, en), {"enum": en, "enumerator": n})
     if not inp:
         return
-    outs = run_driver(ctx, "C18", "\n".join(inp) + "\n")
+    outs = run_driver(ctx, "C18", [l_ + "\n" for l_ in inp])
     if outs is None or len(outs) != len(meta):
         ctx.broke("correspondence", "drv_C18 table-gap confirmation", "driver returned %s lines for %d gap probes" % (None if outs is None else len(outs), len(meta)))
         return
@@ -824,7 +824,7 @@ def run(ctx):
             ctx.log("replay file not usable: %s" % ex)
     # ---- cases
     cases = gen_cases(ctx, tabs)
-    outs = run_driver(ctx, "C18", "\n".join(to_input(c) for c in cases) + "\n")
+    outs = run_driver(ctx, "C18", [(to_input(c)) + "\n" for c in cases])
     if outs is None or len(outs) != len(cases):
         ctx.broke("correspondence", "drv_C18", "driver returned %s lines for %d cases (rc=%s): %s" % (None if outs is None else len(outs), len(cases), getattr(ctx, "driver_rc", "?"), getattr(ctx, "driver_err", "")))
         return
